@@ -97,6 +97,45 @@ def nets_strategy(draw, names, max_nets=8, max_fan=6, min_nets=0):
     return nets
 
 
+_NET_SUB = []
+
+
+def net_subclass():
+    """A Net class of the program's own (nets carrying a label)."""
+    if not _NET_SUB:
+        from rig.netlist import Net
+
+        class LabelledNet(Net):
+            def __init__(self, source, sinks, weight=1.0, label=None):
+                super(LabelledNet, self).__init__(source, sinks, weight)
+                self.label = label
+        _NET_SUB.append(LabelledNet)
+    return _NET_SUB[0]
+
+
+class debug_logging(object):
+    """with debug_logging(on): the root logger at DEBUG level (records go to
+    a handler that drops them), as a program under investigation runs."""
+
+    def __init__(self, on):
+        self.on = bool(on)
+
+    def __enter__(self):
+        if self.on:
+            import logging
+            self.root = logging.getLogger()
+            self.level = self.root.level
+            self.handler = logging.NullHandler()
+            self.root.addHandler(self.handler)
+            self.root.setLevel(logging.DEBUG)
+
+    def __exit__(self, *exc):
+        if self.on:
+            self.root.setLevel(self.level)
+            self.root.removeHandler(self.handler)
+        return False
+
+
 def sinks_arg(vobj, n):
     """The sinks argument of Net for a generated net."""
     if n.get("bare") and len(n["sinks"]) == 1:
@@ -198,6 +237,8 @@ def problem(draw, tier, premise=False, max_w=None, max_v=None):
             "subcls": draw(st.integers(0, 4)) == 0,
             # user-defined resources identified by equal but distinct objects
             "fresh_ids": draw(st.integers(0, 4)) == 0,
+            # the program runs with debug logging switched on
+            "debug_log": draw(st.integers(0, 5)) == 0,
             "seed": draw(st.integers(0, 10 ** 6))}
 
 
@@ -213,6 +254,8 @@ def build_problem(case):
     vobj = pr.vertex_objects(names, case["vkind"])
     vr = OrderedDict((vobj[v["name"]], pr.res_dict(v["needs"]))
                      for v in case["vertices"])
+    if case.get("subcls"):
+        Net = net_subclass()
     nets = [Net(vobj[n["source"]], sinks_arg(vobj, n), n["weight"])
             for n in case["nets"]]
     cons = []
